@@ -139,3 +139,46 @@ func verifSearchAgrees(q string) bool {
 	}
 	return true
 }
+
+// verifNormalizedOK checks the result of normalizeTags(in) against the documented rules: every stored tag is
+// trimmed, lower-cased, within the length limits, starts with a letter or a digit, appears once, stems from the
+// first maxTagCount inputs - and every such input that satisfies the rules is kept.
+func verifNormalizedOK(in []string, maxCount int) bool {
+	saved := globals.maxTagCount
+	globals.maxTagCount = maxCount
+	defer func() { globals.maxTagCount = saved }()
+	src := append([]string(nil), in...)
+	out := normalizeTags(src)
+	if len(out) > maxCount {
+		return false
+	}
+	considered := in
+	if len(considered) > maxCount {
+		considered = considered[:maxCount]
+	}
+	valid := func(t string) bool {
+		r := []rune(t)
+		if len(r) < minTagLength || len(r) > maxTagLength {
+			return false
+		}
+		c := r[0]
+		isLetter := (c >= 'a' && c <= 'z') || (c >= 'A' && c <= 'Z') || c > 127
+		isDigit := c >= '0' && c <= '9'
+		return isLetter || isDigit
+	}
+	want := map[string]bool{}
+	for _, t := range considered {
+		n := strings.ToLower(strings.TrimSpace(t))
+		if valid(n) {
+			want[n] = true
+		}
+	}
+	seen := map[string]bool{}
+	for _, t := range out {
+		if t != strings.ToLower(strings.TrimSpace(t)) || !valid(t) || seen[t] || !want[t] {
+			return false
+		}
+		seen[t] = true
+	}
+	return len(seen) == len(want)
+}
